@@ -12,11 +12,15 @@ RULE = ('Generated decks of 2-10 non-empty level-0 slab cells whose '
         'importances come from cell-card keywords (imp:n=, imp:n,p=, several '
         'imp:x keywords per cell), from IMP:x data cards (1-3 particle types, '
         'with nR, nM and nI shorthand), or from a mix (some cells carry a '
-        'keyword, the others rely on the data cards); zero-importance cells '
-        'at any rank. Oracle: harness-side shorthand expansion; the set of '
+        'keyword, the others rely on the data cards, whose entry for a '
+        'keyword cell may say otherwise); zero-importance cells '
+        'at any rank; a quarter of the decks have level-0 cells filled with '
+        'one or two universe levels of independent importances. Oracle: harness-side shorthand expansion; the set of '
         'non-virtual VOLU numbers must equal the cells whose importance is '
         'non-zero for some particle type, and the NOTE line must list exactly '
-        'the level-0 cells whose importance is zero for every particle type. '
+        'the level-0 cells whose importance is zero for every particle type; '
+        'a converted filled cell yields one volume per leaf cell of the '
+        'universes that fill it. '
         'Non-trivial: both kinds of cell present and (shorthand or >= 2 '
         'particle types); distinct = rendered deck.')
 ASSUMPTIONS = [
